@@ -128,7 +128,7 @@ func main() {
 		var wg sync.WaitGroup
 		sem := make(chan struct{}, 4)
 		for _, ob := range obs {
-			if ob.Status != "failed" || fnOf[ob.Func] == nil {
+			if ob.Status == "proved" || fnOf[ob.Func] == nil {
 				continue
 			}
 			ob := ob
